@@ -974,3 +974,59 @@ def lexer_atn(rep, ex: Explorer, g):
                   extracted="non-greedy" if k in ng_rules else "greedy", required="non-greedy" if g_ng else "greedy", function=site)
         rep.check(skip_a == skip_g, "LEX.generated", site, f"{name} skip action", "the generated rule skips the token exactly when the grammar says '-> skip'", extracted=str(skip_a), required=str(skip_g), function=site)
     rep.floor("named lexer rules compared with the ATN", len(named), 5)
+
+
+# ----------------------------------------------------------------------------------------------
+# the query container
+# ----------------------------------------------------------------------------------------------
+def queries_forward(rep, ex: Explorer):
+    """QUERIES.forward (by evaluation): a `Queries` object built from a parsed base or from a mapping of conditionals presents
+    exactly the conditionals it was given - same keys, same conditional under each key, same order - and, when built from a
+    base, that base's signature.  Evaluated on concrete mappings (dense 1..n, sparse, a single entry, empty) with opaque
+    conditionals; a copy of the mapping is as good as the mapping itself."""
+    prog = ex.prog
+    QC = "inference.queries.Queries"
+    qual = f"{QC}.__init__"
+    if qual not in prog.functions:
+        raise AnalysisError("Queries.__init__ not found")
+    site = fn_label(prog, qual)
+    tables = [[1, 2, 3], [1], [], [3, 7], [0, 5], [2, 1]]
+    n = 0
+    for from_base in (True, False):
+        for keys in tables:
+            def setup(I, keys=keys, from_base=from_base):
+                d = I.alloc(HDict(entries={k: Sym(("cond", k), "cond") for k in keys}))
+                if from_base:
+                    sig = I.alloc(HList([("one", Const("a")), ("one", Const("b"))]))
+                    arg = I.alloc(HObj("inference.belief_base.BeliefBase", {"signature": sig, "conditionals": d, "name": Const("kb")}))
+                else:
+                    arg = d
+                me = I.alloc(HObj(QC, {}))
+                I._q_self = me
+                return [me, arg], {}
+
+            paths = ex.run(qual, setup, key=f"queries-{from_base}-{keys}")
+            slot = ("from a base" if from_base else "from a mapping") + f" with keys {keys}"
+            if len(paths) != 1:
+                raise AnalysisError(f"{site}: {len(paths)} paths on a concrete {slot}")
+            p = paths[0]
+            n += 1
+            if p.outcome[0] != "return":
+                rep.violation("QUERIES.forward", site, slot, "every mapping of conditionals is accepted", extracted=f"{p.outcome[0]} {p.outcome[1]!r}"[:100], required="return", function=site)
+                continue
+            me = next((o for o in p.state.heap.values() if isinstance(o, HObj) and o.cls == QC), None)
+            cd = me.attrs.get("conditionals") if me is not None else None
+            d = p.state.heap.get(cd.oid) if isinstance(cd, Ref) else None
+            if not (isinstance(d, HDict) and not d.each and not d.sym):
+                raise AnalysisError(f"{site}: the conditionals of the query container are not a mapping the analysis can read ({slot})")
+            got = [(k, v.label if isinstance(v, Sym) else repr(v)) for k, v in d.entries.items()]
+            want = [(k, ("cond", k)) for k in keys]
+            rep.check(got == want, "QUERIES.forward", site, slot, "the query container holds the given conditionals under their own keys, in the given order",
+                      extracted=str([(k, F.show_desc(v) if isinstance(v, tuple) else v) for k, v in got])[:200], required=str([(k, f"conditional {k}") for k in keys]), function=site)
+            if from_base:
+                sg = me.attrs.get("signature")
+                so = p.state.heap.get(sg.oid) if isinstance(sg, Ref) else None
+                vals = [x[1].value for x in so.segs if x[0] == "one" and isinstance(x[1], Const)] if isinstance(so, HList) else None
+                rep.check(vals == ["a", "b"], "QUERIES.forward", site, slot + " signature", "the query container carries the signature of the base it was read from",
+                          extracted=repr(vals), required="['a', 'b']", function=site)
+    rep.floor("Queries constructions evaluated", n, 12)
